@@ -17,7 +17,7 @@ open Muscle Muscle.Wire Muscle.Gen Muscle.Eng Muscle.Gateway
 
 def binP : BinParams :=
   { hs := gwHeaderSize, scratch := gwScratchRecvBufferSize, maxIn := 4294967295, mx := maxMessageNestingDepth,
-    inflate := fun _ _ => none }
+    deflate := fun _ x => x, inflate := fun _ _ => none }
 
 def slipK : SlipK :=
   { END := UInt8.ofNat slipEnd, ESC := UInt8.ofNat slipEsc, ESC_END := UInt8.ofNat slipEscEnd, ESC_ESC := UInt8.ofNat slipEscEsc }
@@ -166,7 +166,8 @@ def msgKind (kind param : String) : Option Unit :=
   match kind, parseSlash param with
   | "bin", some [e] => if e ≤ 9 then some () else none
   | "tmpl", some [e, c] => if e ≤ 9 ∧ c ≤ 4294967295 then some () else none
-  | "ws", some [d, h] => if d ≤ 1 ∧ h ≤ 2 then some () else none
+  | "ws", some [d, h] => if d ≤ 1 ∧ h ≤ 4 ∧ h ≠ 3 then some () else none
+  | "ws", some [d, 3, p] => if d ≤ 1 ∧ p ≤ 100000 then some () else none
   | "m2c", some [0] => some ()
   | "c2m", some [0] => some ()
   | "u2c", some [0] => some ()
@@ -188,7 +189,7 @@ def doRun (kind param sched : String) (unitToks : List String) : String :=
     match parseSlash param, unitToks.mapM parseParts with
     | some [e], some us =>
       if e > 2 ∨ hasEnc items then "bad-op" else
-      runSim (textGw gwTextReadSize gwTextSendRecursionLimit) (textInitTx (eolOf e)) textInitRx (fun _ => false) items us
+      runSim (textGw gwTextReadSize gwTextSendRecursionLimit (eolOf e)) textInitTx textInitRx (fun _ => false) items us
         List.length showChunks true (cap + (us.map (fun u => (u.map List.length).sum)).sum / 512)
     | _, _ => "bad-op"
   | "raw" =>
@@ -208,7 +209,7 @@ def doRun (kind param sched : String) (unitToks : List String) : String :=
     | some (), some ms =>
       if hasEnc items && !encAllowed kind then "bad-op" else
       if kind == "bin" && param == "0" && !hasNonzeroEnc items then
-        runSim (binGw binP) binInitTx (binInitRx binP) (fun r => r.err) items ms List.length showMsgs true cap
+        runSim (binGw binP 0) binInitTx (binInitRx binP) (fun r => r.err) items ms List.length showMsgs true cap
       else
         -- not simulated: by `segmentation_independent` everything sent arrives, in order, and the link drains
         s!"ok mid=- end=0/1 n={ms.length}{showMsgs ms}"
@@ -238,6 +239,34 @@ def doWire (kind param : String) (unitToks : List String) : String :=
       else "ok -"
     | _, _ => "bad-op"
 
+/-- the payloads of a byte string that is, in full, a sequence of complete FIN binary frames acceptable to this receiver
+    (`Gateway.wsDecodeFrame`: reserved bits, mask bit, the three length forms, unmasking); `none` = anything else -/
+def wsPayloads (expectMask : Bool) : Nat → Bytes → Option (List Bytes)
+  | 0, _ => none
+  | fuel+1, b =>
+    if b.isEmpty then some [] else
+    match wsDecodeFrame expectMask b with
+    | some (2, true, p, rest) => (wsPayloads expectMask fuel rest).map (p :: ·)
+    | _ => none
+
+/-- `ExecuteReceivedFrame`, WS_OPCODE_BINARY with a slave gateway: the payload is the slave's transport for
+    `while(DoInput() > 0)`; what it does not consume is dropped -/
+def slaveFeed : Nat → BinRx → Bytes → List Msg → BinRx × List Msg
+  | 0, s, _, acc => (s, acc)
+  | fuel+1, s, q, acc =>
+    let r := rxCall (binRx binP) s unlimited q
+    if r.2.1.length == q.length then (r.1, acc ++ r.2.2) else slaveFeed fuel r.1 r.2.1 (acc ++ r.2.2)
+
+/-- `feed ws <dir>/0`: predicted when the input is a clean sequence of frames whose payloads the slave gateway accepts -/
+def feedWs (expectMask : Bool) (bytes : Bytes) : String :=
+  match wsPayloads expectMask (bytes.length + 1) bytes with
+  | none => "?"
+  | some ps =>
+    if !(ps.all (fun p => binKnown (p.length + 1) p)) then "?" else
+    let r := ps.foldl (fun (x : BinRx × List Msg) p => slaveFeed (p.length + 2) x.1 p x.2) (binInitRx binP, [])
+    if r.1.err then "?"   -- a slave parse error is swallowed by the WebSocket gateway ("TODO: handle parse-errors here?"): not predicted
+    else s!"ok end=0/0 n={r.2.length}{showMsgs r.2}"
+
 def onlyInputs (items : List Item) : Bool := items.all (fun i => match i with | .inp _ => true | _ => false)
 
 def doFeed (kind param sched hex : String) : String :=
@@ -248,7 +277,7 @@ def doFeed (kind param sched hex : String) : String :=
     | "text" =>
       match parseSlash param with
       | some [e] => if e > 2 then "bad-op" else
-        feedSim (textGw gwTextReadSize gwTextSendRecursionLimit) (textInitTx (eolOf e)) textInitRx (fun _ => false) items bytes List.length showChunks
+        feedSim (textGw gwTextReadSize gwTextSendRecursionLimit (eolOf e)) textInitTx textInitRx (fun _ => false) items bytes List.length showChunks
       | _ => "bad-op"
     | "raw" =>
       match parseSlash param with
@@ -264,16 +293,17 @@ def doFeed (kind param sched hex : String) : String :=
       | none => "bad-op"
       | some () =>
         if kind == "bin" && binKnown (bytes.length + 1) bytes then
-          feedSim (binGw binP) binInitTx (binInitRx binP) (fun r => r.err) items bytes List.length showMsgs
+          feedSim (binGw binP 0) binInitTx (binInitRx binP) (fun r => r.err) items bytes List.length showMsgs
+        else if kind == "ws" && param == "0/0" then feedWs false bytes     -- a client receiving (unmasked) server frames
+        else if kind == "ws" && param == "1/0" then feedWs true bytes      -- a server receiving masked client frames
         else "?"   -- zlib bodies, templating, WebSocket and the C parsers' error behaviour are not modelled
   | _, _ => "bad-op"
 
 def doShare (enc a b s : String) : String :=
   match nat? enc, parseMsg a, parseMsg b, parseMsg s with
   | some e, some _, some _, some _ =>
-    if e > 9 then "bad-op"
-    else if e = 0 then "ok n=2,2 e=0,0"
-    else "?"   -- zlib: F24 (the second link reuses bytes compressed against the first link's history)
+    -- both links deliver both Messages, whatever the encoding (with a dependent zlib stream the cached bytes are not shared: F24, fixed)
+    if e > 9 then "bad-op" else "ok n=2,2 e=0,0"
   | _, _, _, _ => "bad-op"
 
 def step (_ : Unit) (toks : List String) : Unit × String :=
